@@ -161,6 +161,9 @@ class R:
             raise Stop("width not a multiple of 8")
         self.name, self.offset, self.width, self.uid, self.hidden, self.access = name, offset, width, uid, hidden, access
         self.fields = []   # (offset, width, uid, name)
+        self.fdet = []     # per field: dict(reset, hidden, access, shift, name, uid, enums=[(value, name)])
+        self.value = 0     # simulated `_value` (plain register)
+        self.rev_subs = False
         self.subs = []
         self.width_init = False
         self.subs_width = 0
@@ -213,22 +216,47 @@ def reg_from_spec(spec, fuse=False):
     reset = vti(spec.get("reset_value_int", 0))
     if reset and reset >= 1 << width:
         raise Stop("reset value does not fit")
+    if reset:
+        reg.value = reset
     off = 0
     for b in spec.get("bitfields", []):
+        hidden_name = f"HIDDEN_BITFIELD_{off:03X}"
         w = vti(b.get("width", 0))
+        name = b.get("name", hidden_name)
+        hidden = name == hidden_name
+        acc = access_label(b.get("access", "RW"))
         rv = vti(b.get("reset_value_int", 0))
-        if rv and not 0 <= rv < 1 << w:
-            # (a SHIFT_RIGHT processor shifts first; none of the fuse/pfr resets exceeds the field otherwise)
-            pre = b.get("config_preprocess")
-            cnt = 0
-            if isinstance(pre, str) and pre.upper().startswith("SHIFT_RIGHT"):
-                for part in pre.split(":")[1].split(";")[0].split(","):
-                    if part.strip().upper().startswith("COUNT"):
-                        cnt = vti(part.split("=")[1])
-            if not 0 <= (rv >> cnt) < 1 << w:
+        cnt = 0
+        pre = b.get("config_preprocess")
+        if isinstance(pre, str) and pre.split(":")[0] == "SHIFT_RIGHT":
+            # ConfigProcessor.get_params: "NAME:k=v,k=v;DESC=..."
+            parts = pre.split(";", 1)[0].split(":")
+            params = {}
+            if len(parts) > 1:
+                for prm in parts[1].split(","):
+                    kv = prm.split("=")
+                    if len(kv) != 2:
+                        raise Stop("bad config processor parameter")
+                    params[kv[0].lower()] = vti(kv[1])
+            if "count" not in params:
+                raise Stop("SHIFT_RIGHT without COUNT")
+            cnt = params["count"]
+        mask = ((1 << w) - 1) << off
+        if rv:
+            new = rv >> cnt
+            if not 0 <= new < 1 << w:
                 raise Stop("bit-field reset value does not fit")
-        access_label(b.get("access", "RW"))
+            reg.value = (reg.value & ~mask) | ((new << off) & mask)
+            breset = rv
+        else:
+            breset = ((reg.value >> off) & ((1 << w) - 1)) << cnt
+        enums = []
+        for e in b.get("values", []):
+            if "value" not in e:
+                raise Stop("enum without value")
+            enums.append((vti(e["value"]), e.get("name", "N/A") or "N/A"))
         reg.fields.append((off, w, b.get("id", ""), b.get("name")))
+        reg.fdet.append({"reset": breset, "hidden": hidden, "access": acc, "shift": cnt, "name": name or "N/A", "uid": b.get("id", ""), "enums": enums})
         off += w
     if fuse and "index_int" not in spec:
         raise Stop("fuse without index_int")
@@ -256,6 +284,7 @@ def load_registers(spec, grouped, fuse=False):
                 if reg.name not in r.alias_names:
                     r.alias_names.append(reg.name)
                 r.fields.extend(reg.fields)
+                r.fdet.extend(reg.fdet)
                 return
         regs.append(reg)
 
@@ -269,6 +298,7 @@ def load_registers(spec, grouped, fuse=False):
                     if gr is None:
                         gr = R(g["name"], vti(g.get("offset", 0)), vti(g.get("width", 0)), g["uid"], False, access_label(g.get("access", "RW")))
                         gr.reverse = vtb(g.get("reversed", False))
+                        gr.rev_subs = bool(g.get("reverse_subregs_order", False))
                         add_register(gr)
                     gr.add_group_reg(reg)
                 else:
@@ -283,6 +313,36 @@ def compact(regs):
     for r in regs:
         cov = r.width if not r.subs else len(r.subs) * r.subs[0].width
         out.append([r.offset, r.width, 1 if r.hidden else 0, cov, [[o, w] for (o, w, _u, _n) in r.fields]])
+    return out
+
+
+def init_value(r):
+    """`Register.get_value(raw=True)` of the freshly loaded register"""
+    if not r.subs:
+        return r.value
+    sw = r.subs[0].width
+    v = 0
+    for i, sub in enumerate(r.subs, start=1):
+        pos = r.width - i * sw if r.rev_subs else (i - 1) * sw
+        if pos < 0:
+            raise Stop("negative sub-register position")
+        v |= sub.value << pos
+    return v
+
+
+ACC = {"NONE": 0, "RO": 1, "RW": 2, "WO": 3}
+
+
+def details(regs, hide=()):
+    """per register: [init, name, uid, access, reverse, fields=[[reset, hidden, access, shift, name, uid, [[value, name]..]]..]]; `hide` = (reg uid, field uid) made hidden by
+    BaseConfigArea._load_registers (computed fields)"""
+    out = []
+    for r in regs:
+        fs = []
+        for f in r.fdet:
+            hidden = f["hidden"] or (r.uid, f["uid"]) in hide
+            fs.append([f["reset"], 1 if hidden else 0, ACC[f["access"]], f["shift"], f["name"], f["uid"], [[v, n] for v, n in f["enums"]]])
+        out.append([init_value(r), r.name, r.uid, ACC[r.access], 1 if r.reverse else 0, fs])
     return out
 
 
@@ -321,6 +381,7 @@ def lean_str(s):
 
 # ------------------------------------------------------------------------------------------------ main
 def gen_RegLayouts():
+    _emitted["done"] = True
     db = Db()
     pfrc = class_consts("spsdk/pfr/pfr.py", {"BINARY_SIZE", "IMAGE_PREFILL_PATTERN", "DB_SUB_FEATURE", "MARK", "FEATURE_NAME"})
     bca = class_consts("spsdk/image/bca/bca.py", {"SIZE", "TAG"})["BCA"]
@@ -362,12 +423,19 @@ def gen_RegLayouts():
                 merged.append(r)
             regs, err = merged, err or herr
         computed, seal_start, seal_count = [], 0, 0
+        computed_d, hide = [], set()
         if pfr:
             uids = {r.uid: i for i, r in enumerate(regs)}
             for reg_uid, fields in (dget(fd, key + ["computed_fields"], {}) or {}).items():
                 for bf_uid, method in fields.items():
                     if reg_uid in uids and method in RULES:
                         computed.append([uids[reg_uid], RULES[method]])
+                        fidx = next((k for k, f in enumerate(regs[uids[reg_uid]].fdet) if f["uid"] == bf_uid), None)
+                        if fidx is None:
+                            problems.append(f"{row_key}: computed bit-field {reg_uid}/{bf_uid} not found")
+                        else:
+                            computed_d.append([uids[reg_uid], RULES[method], fidx])
+                            hide.add((reg_uid, bf_uid))
                     else:
                         problems.append(f"{row_key}: computed field {reg_uid}/{bf_uid}/{method} not resolvable")
             ss = dget(fd, key + ["seal_start"])
@@ -379,10 +447,11 @@ def gen_RegLayouts():
         rel = os.path.relpath(path, DATA)
         content = {"kind": kind, "size": size, "fill": fill, "doc": doc, "binary": binary, "computed": sorted(computed),
                    "seal": [seal_start, seal_count], "regs": compact(regs)}
-        ck = json.dumps(content, sort_keys=True)
+        det = {"regs": details(regs, hide), "computed": sorted(computed_d)}
+        ck = json.dumps([content, det], sort_keys=True)
         if ck not in index:
             index[ck] = len(layouts)
-            layouts.append(dict(content, file=rel, load_error=err, first_row=row_key))
+            layouts.append(dict(content, file=rel, load_error=err, first_row=row_key, det=det))
         rows[row_key] = index[ck]
         return regs, err
 
@@ -467,8 +536,52 @@ def gen_RegLayouts():
                        "bitfields": sum(len(r[4]) for l in layouts for r in l["regs"]), "tz_rows": len(tz_rows)}}
     emit("RegLayouts", "\n".join(out) + "\n", meta)
 
+    # ------------------------------------------------------------------ second table: details aligned with `layouts`
+    NSHARD = 8
+    dmeta, defs = [], []
+    for i, l in enumerate(layouts):
+        det = l["det"]
+        names = sorted({r[1] for r in det["regs"]} | {r[2] for r in det["regs"]} | {f[4] for r in det["regs"] for f in r[5]}
+                       | {e[1] for r in det["regs"] for f in r[5] for e in f[6]})
+        nid = {n: k for k, n in enumerate(names)}
+        regs_txt = []
+        for r in det["regs"]:
+            hdr = [r[0], nid[r[1]], nid[r[2]], r[4] | (r[3] << 1)]
+            fs = ", ".join("[" + ", ".join(map(str, [f[0], f[1] | (f[2] << 1), f[3], nid[f[4]]] + [x for e in f[6] for x in (e[0], nid[e[1]])])) + "]" for f in r[5])
+            regs_txt.append("([" + ", ".join(map(str, hdr)) + "], [" + fs + "])")
+        comp = "[" + ", ".join(f"({a}, {b}, {c})" for a, b, c in det["computed"]) + "]"
+        txt = (f"/-- details of layout {i}: {l['file']} -/\n"
+               f"def d{i} : LayoutD := LayoutD.ofRaw {nid.get('', len(names))} {comp} [\n  " + ",\n  ".join(regs_txt) + "]\n")
+        defs.append(txt)
+        dmeta.append({"file": l["file"], "names": names, "regs": det["regs"], "computed": det["computed"]})
+    # shards of similar size, built in parallel by lake (one 0.7 MB file takes minutes to elaborate)
+    shards = [[] for _ in range(NSHARD)]
+    load = [0] * NSHARD
+    for i in sorted(range(len(defs)), key=lambda k: -len(defs[k])):
+        k = load.index(min(load))
+        shards[k].append(i)
+        load[k] += len(defs[i])
+    for k in range(NSHARD):
+        body = ["import SpsdkVerif.Model.ConfigArea", "", "namespace SpsdkVerif.Generated.RegDetails", "open SpsdkVerif.CfgArea", "",
+                "set_option maxRecDepth 100000", ""] + [defs[i] for i in sorted(shards[k])] + ["end SpsdkVerif.Generated.RegDetails"]
+        emit(f"RegDetails{k}", "\n".join(body) + "\n", {"layouts": sorted(shards[k])})
+    od = [f"import SpsdkVerif.Generated.RegDetails{k}" for k in range(NSHARD)] + ["", "namespace SpsdkVerif.Generated.RegDetails", "open SpsdkVerif.CfgArea", "",
+          "def details : List LayoutD := [" + ", ".join(f"d{i}" for i in range(len(layouts))) + "]", "", "end SpsdkVerif.Generated.RegDetails"]
+    emit("RegDetails", "\n".join(od) + "\n", {"details": dmeta, "counts": {
+        "enums": sum(len(f[6]) for d in dmeta for r in d["regs"] for f in r[5]),
+        "names": sum(len(d["names"]) for d in dmeta)}})
 
-GENERATORS = {"RegLayouts": gen_RegLayouts}
+
+_emitted = {"done": False}
+
+
+def gen_RegDetails():
+    """emitted together with RegLayouts (same pass over the database)"""
+    if not _emitted["done"]:
+        gen_RegLayouts()
+
+
+GENERATORS = {"RegLayouts": gen_RegLayouts, "RegDetails": gen_RegDetails}
 
 
 def gen_PfrFuns():
